@@ -5,6 +5,7 @@ import (
 	"fmt"
 	"strings"
 	"sync"
+	"sync/atomic"
 
 	"github.com/lugu/qiloop/bus/net"
 	secret "github.com/lugu/qiloop/bus/session/token"
@@ -12,19 +13,20 @@ import (
 )
 
 type client struct {
-	endpoint       net.EndPoint
-	messageID      uint32
-	messageIDMutex sync.Mutex
-	state          map[string]int
-	stateMutex     sync.Mutex
-	capability     CapabilityMap
+	endpoint   net.EndPoint
+	state      map[string]int
+	stateMutex sync.Mutex
+	capability CapabilityMap
 }
 
+// lastMessageID is shared by all the clients: several clients can
+// use the same connection (one per client object forwarded by a
+// service for example) and the answer of a call is recognised by its
+// message id.
+var lastMessageID uint32 = 1
+
 func (c *client) nextMessageID() uint32 {
-	c.messageIDMutex.Lock()
-	defer c.messageIDMutex.Unlock()
-	c.messageID += 2
-	return c.messageID
+	return atomic.AddUint32(&lastMessageID, 2)
 }
 
 func (c *client) newMessage(serviceID uint32, objectID uint32,
@@ -216,7 +218,6 @@ func (c *client) Channel() Channel {
 func NewClient(channel Channel) Client {
 	return &client{
 		endpoint:   channel.EndPoint(),
-		messageID:  1,
 		state:      map[string]int{},
 		capability: channel.Cap(),
 	}
